@@ -130,9 +130,29 @@ pub fn synced_vids(st: &FsState, sep: u8) -> std::collections::HashSet<u64> {
     out
 }
 
+/// Could `piece` be the beginning of one well-formed record that is still being written?
+pub fn is_plausible_record_start(piece: &[u8]) -> bool {
+    let mut it = piece.splitn(3, |b| *b == b':');
+    let Some(vid_txt) = it.next() else { return true };
+    if vid_txt.is_empty() || !vid_txt.iter().all(|b| b.is_ascii_digit()) {
+        return false;
+    }
+    let Some(len_txt) = it.next() else { return true };
+    if !len_txt.iter().all(|b| b.is_ascii_digit()) {
+        return false;
+    }
+    let Some(payload) = it.next() else { return true };
+    let (Ok(vid), Ok(len)) = (std::str::from_utf8(vid_txt).unwrap().parse::<u64>(), std::str::from_utf8(len_txt).unwrap().parse::<usize>()) else {
+        return false;
+    };
+    payload.len() <= len && payload.iter().enumerate().all(|(i, b)| *b == payload_byte(vid, i))
+}
+
 /// Record-grammar check of every file: (path, start, end, text) of every piece that is neither
 /// empty, nor a complete record, nor a truncated record justified by a logged cut.
-pub fn bad_pieces(st: &FsState, sep: u8) -> Vec<(String, usize, usize, String)> {
+/// `worker_may_be_writing`: the snapshot was taken while the worker thread can be in the middle of
+/// a `write_all`, so an unterminated tail that is the beginning of one well-formed record is not judged.
+pub fn bad_pieces(st: &FsState, sep: u8, worker_may_be_writing: bool) -> Vec<(String, usize, usize, String)> {
     let mut bad = Vec::new();
     for (path, node) in st.files.iter() {
         let content = node.content();
@@ -143,7 +163,8 @@ pub fn bad_pieces(st: &FsState, sep: u8) -> Vec<(String, usize, usize, String)> 
                 let terminated = i < content.len();
                 let piece = &content[s..i];
                 if !piece.is_empty() && !(terminated && parse_body(piece).is_some()) {
-                    let justified = st.cuts.iter().any(|c| c.path == *path && c.offset == i && is_record_prefix(piece, &c.rest, sep));
+                    let justified = st.cuts.iter().any(|c| c.path == *path && c.offset == i && is_record_prefix(piece, &c.rest, sep))
+                        || (worker_may_be_writing && !terminated && is_plausible_record_start(piece));
                     if !justified {
                         bad.push((path.clone(), s, i, vcommon::show_bytes(&piece[..piece.len().min(48)])));
                     }
